@@ -127,10 +127,18 @@ func related(tree *jsonv.Value, q doctree.Path, m *mutate.Mutant) (bool, string)
 	// member of the same small object: with one member of an object broken, the object as a whole is what
 	// offends, and a position at another member of it (a default that no longer fits the type, an encoding entry
 	// naming a property of the replaced schema) lies inside it. Not for containers of independent definitions.
-	if len(f) >= 2 && !independentMembers[f[len(f)-2]] && isPrefix(f[:len(f)-1], q) {
-		if _, err := strconv.Atoi(f[len(f)-1]); err != nil {
+	fo := f
+	if len(fo) >= 2 && fo[len(fo)-1] == "$ref" {
+		fo = fo[:len(fo)-1] // a broken reference offends as the object that holds it
+	}
+	if len(fo) >= 2 && !independentMembers[fo[len(fo)-2]] && isPrefix(fo[:len(fo)-1], q) {
+		if _, err := strconv.Atoi(fo[len(fo)-1]); err != nil {
 			return true, "member-of-the-same-object"
 		}
+	}
+	// members of one enum list: a changed member is reported at the member it now duplicates
+	if len(f) >= 2 && f[len(f)-2] == "enum" && isPrefix(f[:len(f)-1], q) {
+		return true, "member-of-the-same-enum"
 	}
 	// mention: the reported node (a key on the way to it or a scalar in its subtree) names the mutated node
 	mention := false
@@ -156,6 +164,13 @@ func related(tree *jsonv.Value, q doctree.Path, m *mutate.Mutant) (bool, string)
 		for _, k := range q {
 			if strings.Contains(k, vals[0]) {
 				mention = true
+			}
+		}
+	}
+	for _, v := range vals {
+		for _, k := range q {
+			if len(v) >= 1 && strings.Contains(k, "{"+v+"}") {
+				mention = true // a path template naming the mutated parameter
 			}
 		}
 	}
@@ -652,6 +667,9 @@ func Main(args []string) int {
 			if strings.Contains(p, "/negative/") {
 				maxNodes = 8
 			}
+		}
+		if replayAt != "" {
+			maxNodes = 0 // the recorded node must be in the plan whatever the tier's sampling
 		}
 		var local []*mcase
 		// baseline: the unmutated document in both spellings (also gives the CPU reference)
